@@ -138,3 +138,23 @@ class Tracing(io.BytesIO):
 
     def flush(self):
         self.trace.append(("flush",)); return super().flush()
+
+
+class ReadOnlyMinimal:
+    """Only the documented LOADING interface: read, seek, tell (docs/user/examples/fileobj-iface.py)."""
+    def __init__(self, data, neg="clamp"):
+        self._m = Minimal(data, neg); self.asked = set()
+
+    def tell(self):
+        return self._m.tell()
+
+    def read(self, size=-1):
+        return self._m.read(size)
+
+    def seek(self, offset, whence=0):
+        return self._m.seek(offset, whence)
+
+    def __getattr__(self, name):
+        if not name.startswith("_"):
+            self.asked.add(name)
+        raise AttributeError(name)
